@@ -9,5 +9,6 @@ CONSTANTS
   SerialReg = TRUE
   MaxBatch = 0
   RetryEnds = TRUE
+  MaxAck = 0
 INVARIANTS AllGone NoCrash NewestSender
 CHECK_DEADLOCK FALSE
